@@ -70,9 +70,11 @@ def mrs_sem(read_spsr):
 
 MRS_A = 'cond 00010 %s 00 (1)(1)(1)(1) Rd (0)(0) 0 (0) 0000 (0)(0)(0)(0)'
 MRS_T = '11110 0 11111 %s (1)(1)(1)(1) 10 (0) 0 Rd (0)(0) 0 (0)(0)(0)(0)(0)'
-Enc('MrsApplicationA1', 'A', MRS_A % '0', family=FAM, unpred=lambda f, S: f['Rd'] == 15, sem=mrs_sem(False))
+Enc('MrsApplicationA1', 'A', MRS_A % '0', family=FAM, unpred=lambda f, S: f['Rd'] == 15, sem=mrs_sem(False),
+    known=[('F014', lambda f, S: S.privileged())])
 Enc('MrsSystemA1', 'A', MRS_A % '1', family=FAM, unpred=lambda f, S: f['Rd'] == 15, sem=mrs_sem(True))
-Enc('MrsApplicationT1', 'T32', MRS_T % '0', family=FAM, unpred=lambda f, S: badreg(f['Rd']), sem=mrs_sem(False))
+Enc('MrsApplicationT1', 'T32', MRS_T % '0', family=FAM, unpred=lambda f, S: badreg(f['Rd']), sem=mrs_sem(False),
+    known=[('F014', lambda f, S: S.privileged())])
 Enc('MrsSystemT1', 'T32', MRS_T % '1', family=FAM, unpred=lambda f, S: badreg(f['Rd']), sem=mrs_sem(True))
 
 
